@@ -89,7 +89,7 @@ PROTO = "rpyc/core/protocol.py::Connection."
 ATTR_FUNCS = [PROTO + n for n in ("_check_attr", "_access_attr", "_handle_getattr", "_handle_setattr", "_handle_delattr",
                                   "_handle_call", "_handle_callattr", "_handle_cmp", "_handle_ctxexit", "_handle_oldslicing")]
 SERVICE_HOOKS = ["rpyc/core/service.py::Service._rpyc_delattr", "rpyc/core/service.py::Service._rpyc_setattr"]
-ALL_CONTRACTS = ["brine", "compat", "externals", "stream", "channel", "protocol_attr", "colls", "protocol_box", "protocol_core", "async_", "protocol_close", "lib", "netref", "protocol_handlers", "scenarios", "vinegar", "classic", "registry", "server", "protocol_init"]
+ALL_CONTRACTS = ["brine", "compat", "externals", "stream", "channel", "protocol_attr", "colls", "protocol_box", "protocol_core", "async_", "protocol_close", "lib", "netref", "protocol_handlers", "scenarios", "vinegar", "classic", "registry", "server", "protocol_init", "helpers"]
 ALL_SPECS = ["brine_spec", "channel_spec", "policy_spec", "refcount_spec", "protocol_spec", "box_spec", "netref_spec", "vinegar_spec", "registry_spec", "server_spec"]
 
 PLANS["C06"] = dict(
@@ -155,7 +155,7 @@ PLANS["C15"] = dict(
     contracts=ALL_CONTRACTS, specs=ALL_SPECS, table="module",
     targets=[TIMEOUT + n for n in ("__init__", "expired", "timeleft")] +
             [ASYNC + n for n in ("__init__", "__call__", "add_callback", "set_expiry", "wait", "value", "ready")] +
-            [PROTO + "async_request", PROTO + "sync_request"],
+            [PROTO + "async_request", PROTO + "sync_request", "rpyc/utils/helpers.py::_Async.__call__", "rpyc/utils/helpers.py::timed.__call__"],
     lemmas=["app_app1", "app_nil"], compositions=[], native_focus=[], design_ref="DESIGN.md section 4, C15",
     assumptions=COMMON_ASSUMPTIONS + [
         "time is a real-valued ghost clock: every time.time() returns a value not smaller than any earlier one; floats used "
@@ -168,7 +168,10 @@ PLANS["C15"] = dict(
         "connection through AsyncResult.__call__ (whose own contract gives finality) and never raise TimeoutError",
         "the real-time half of `not later unless busy serving` (that poll returns by the deadline) is the OS's contract: "
         "proved is that wait() hands serve() the result's OWN deadline object and re-tests it after every call",
-        "helpers.timed / _Async are not under contract yet",
+        "helpers._Async.__call__ and helpers.timed.__call__ are verified: one asynchronous call request with exactly the given "
+        "arguments; a timed call sets the expiry of exactly that result to exactly the wrapper's timeout, once (the result "
+        "object is dynamic there: set_expiry is a ghost call event, its own contract is AsyncResult.set_expiry's); async_() / "
+        "timed.__init__ (weak cache of wrappers) are not under contract",
     ],
 )
 PLANS["C08"] = dict(
